@@ -363,8 +363,10 @@ impl Subscriber for SubscriberService {
                     let deleted = subscription.deleted();
 
                     // Then, pull the available messages from the subscription.
+                    // A closed subscription means it was deleted: leave the loop so that
+                    // the stream terminates with a not found below.
                     let pulled = match subscription.pull_messages(max_count).await {
-                        Err(PullMessagesError::Closed) => return,
+                        Err(PullMessagesError::Closed) => break,
                         Ok(pulled) => pulled,
                     };
 
